@@ -550,6 +550,11 @@ pub struct C12Case {
   /// K01 / K02 leave standing (see c12_check)
   #[serde(default)]
   pub weak_late: bool,
+  /// ReplaySubject only: one more thread calls complete() while the producers push. What a
+  /// pushed item meets then (delivered, or dropped because the terminal came first) is the
+  /// race's business; what must hold is judged in a branch of its own (see c12_check)
+  #[serde(default)]
+  pub with_terminal: bool,
 }
 
 pub fn c12_strategy(ctx: &Ctx) -> BoxedStrategy<C12Case> {
@@ -589,6 +594,10 @@ pub fn c12_strategy(ctx: &Ctx) -> BoxedStrategy<C12Case> {
       if pre % 2 == 0 {
         threads.push(vec![Action::Advance(50), Action::Subscribe(3)]);
       }
+      let with_terminal = kind == HotKind::Replay && pre % 2 == 0 && lens[0] % 2 == 0;
+      if with_terminal {
+        threads.push(vec![Action::Emit(0, Ev::C)]);
+      }
       let mut root = Node::Src(0, Src::Hot(0));
       root.renumber();
       let case = Case {
@@ -598,7 +607,7 @@ pub fn c12_strategy(ctx: &Ctx) -> BoxedStrategy<C12Case> {
         recorders: vec![vec![], vec![], vec![], vec![]],
         actions: pre_actions,
       };
-      C12Case { cc: ConcCase { case, threads, sched }, kind: format!("{:?}", kind), weak_late }
+      C12Case { cc: ConcCase { case, threads, sched }, kind: format!("{:?}", kind), weak_late, with_terminal }
     })
     .boxed()
 }
@@ -633,6 +642,36 @@ fn c12_check(_ctx: &Ctx, c: &C12Case) -> Report {
   };
   let is_replay = c.kind.starts_with("Replay");
   let is_behavior = c.kind.starts_with("Behavior");
+  if c.with_terminal {
+    // complete() races the pushes. Whatever the race did, the stored history must not
+    // contradict what live observers saw: every item that observer 0 (subscribed
+    // throughout) received is part of what the subscriber that arrives when everything is
+    // quiet again is replayed - each once, followed by the stored terminal.
+    rep.classes.push("complete-races-the-pushes".into());
+    let items = |k: usize| -> Vec<i64> { items_of(&ordered(&r.log.recs[k])).iter().map(|p| p.as_i64()).collect() };
+    let terminals = |k: usize| ordered(&r.log.recs[k]).iter().filter(|e| e.k.is_terminal()).count();
+    let (live, late) = (items(0), items(3));
+    rep.nontrivial = !live.is_empty();
+    if r.log.sub_marks.get(3).copied().flatten().is_some() {
+      let mut seen = std::collections::BTreeSet::new();
+      if late.iter().any(|v| !seen.insert(*v)) {
+        rep.fail = fail(format!("the late subscriber was replayed an item twice: {:?}", late));
+        return rep;
+      }
+      if let Some(missing) = live.iter().find(|v| !late.contains(v)) {
+        rep.fail = fail(format!(
+          "observer 0 received {} before the terminal, but the subscriber that arrived afterwards was replayed only {:?}",
+          missing, late
+        ));
+        return rep;
+      }
+      if terminals(3) != 1 {
+        rep.fail = fail(format!("the late subscriber received {} terminal notifications after the subject had completed", terminals(3)));
+        return rep;
+      }
+    }
+    return rep;
+  }
   for k in 0..r.log.sub_marks.len().min(4) {
     let (sub_call, sub_ret) = match r.log.sub_marks[k] {
       Some(m) => m,
@@ -1319,7 +1358,7 @@ pub fn properties() -> Vec<Property> {
     },
     Property {
       id: "C12",
-      rule: "cases = 1..2 producer threads pushing unique items into a Subject / BehaviorSubject / ReplaySubject, an observer subscribed throughout, optionally one subscribing from its own thread and one unsubscribing from its own thread, in half of the cases one more subscribing 50 ms (virtual) after everything else, 0..4 items pushed beforehand, generated schedule; oracle = exactly-once, per-producer gap-free runs in order, nothing lost while subscribed, nothing after unsubscribe returned, replay completeness in push order, behavior: a value then every later value; non-trivial = the subscribe / unsubscribe call overlapped a push",
+      rule: "cases = 1..2 producer threads pushing unique items into a Subject / BehaviorSubject / ReplaySubject, an observer subscribed throughout, optionally one subscribing from its own thread and one unsubscribing from its own thread, in half of the cases one more subscribing 50 ms (virtual) after everything else (ReplaySubject: in half of those a further thread calls complete() meanwhile - then only: what observer 0 received is contained in what the late one is replayed, once each, plus the terminal), 0..4 items pushed beforehand, generated schedule; oracle = exactly-once, per-producer gap-free runs in order, nothing lost while subscribed, nothing after unsubscribe returned, replay completeness in push order, behavior: a value then every later value; non-trivial = the subscribe / unsubscribe call overlapped a push",
       assumptions: vec!["push order = order of the producers' call/return stamps; overlapping pushes may be observed in either order"],
       subs: vec![mk_sub("subjects", (800, 15_000), c12_strategy, c12_check)],
     },
